@@ -60,37 +60,33 @@ Theorem C12_both_ends_partial_v3 : forall cfg sch, good cfg -> mt cfg = MMemfd -
 Proof. exact v3_ack_means_mapped. Qed.
 Print Assumptions C12_both_ends_partial_v3.
 
-(* (5) faults: a running end has returned at the latest when its timer event is taken *)
+(* (5) faults: a running end has returned once its timer event was taken, its goroutine ran once more
+   (initProtocol shuts the socket down, so that step is the goroutine's last) and initProtocol saw it
+   finished *)
 Theorem C12_fault_timer : forall cfg pre post,
-  (c_running (wc (run cfg pre (init cfg))) = true -> cret (wc (run cfg (pre ++ LTimerC :: post) (init cfg))) <> None) /\
-  (s_running (ws (run cfg pre (init cfg))) = true -> sret (ws (run cfg (pre ++ LTimerS :: post) (init cfg))) <> None).
+  (c_running (wc (run cfg pre (init cfg))) = true ->
+   cret (wc (run cfg (pre ++ LTimerC :: LC :: LRetC :: post) (init cfg))) <> None) /\
+  (s_running (ws (run cfg pre (init cfg))) = true ->
+   sret (ws (run cfg (pre ++ LTimerS :: LS :: LRetS :: post) (init cfg))) <> None).
 Proof. exact returns_by_timer. Qed.
 Print Assumptions C12_fault_timer.
 
-(* ... an error return has released the end's mappings (server: for every error but the timeout) *)
-Theorem C12_fault_release : forall cfg sch e, good cfg ->
+(* ... and an error return — ANY error, the timeout included — leaves nothing of the session's own
+   behind: no mapping, no dup'ed descriptor, no initialiser goroutine.  (Before the repair of
+   newSession/initProtocol this statement was refuted twice: stalled peer, and a peer answering after
+   the timeout; the two schedules are kept below as examples and in the harness as regressions.) *)
+Theorem C12_no_residue : forall cfg sch e, good cfg ->
   let w := run cfg sch (init cfg) in
-  (cret (wc w) = Some (RErr e) -> c_mapped w = []) /\
-  (sret (ws w) = Some (RErr e) -> e <> ETimeout -> s_mapped w = [] /\ spc (ws w) = SDone (RErr e)).
-Proof. exact error_releases_mappings. Qed.
-Print Assumptions C12_fault_release.
+  (cret (wc w) = Some (RErr e) -> c_mapped w = [] /\ cdup (wc w) = false /\ c_thread_alive w = false) /\
+  (sret (ws w) = Some (RErr e) -> s_mapped w = [] /\ sdup (ws w) = false /\ s_thread_alive w = false).
+Proof. exact no_residue. Qed.
+Print Assumptions C12_no_residue.
 
 (* ... and the client's /dev/shm files are gone *)
 Theorem C12_fault_files : forall cfg sch e, good cfg ->
   cret (wc (run cfg sch (init cfg))) = Some (RErr e) -> no_files cfg (run cfg sch (init cfg)).
 Proof. exact client_error_removes_files. Qed.
 Print Assumptions C12_fault_files.
-
-(* "nothing is left behind after an error" — false twice over *)
-Definition C12_no_residue_full : Prop := no_residue_full.
-Theorem C12_no_residue_refuted : ~ C12_no_residue_full.        (* stalled peer: goroutine + dup'ed fd *)
-Proof. exact no_residue_refuted. Qed.
-Print Assumptions C12_no_residue_refuted.
-
-Definition C12_no_late_mapping_full : Prop := no_late_mapping_full.
-Theorem C12_no_late_mapping_refuted : ~ C12_no_late_mapping_full.   (* the goroutine maps after the timeout *)
-Proof. exact no_late_mapping_refuted. Qed.
-Print Assumptions C12_no_late_mapping_refuted.
 
 (* non-vacuity: both real flows run to success on both ends, with the version and the mappings the
    theorems speak about; and the state of the stalled-peer witness *)
@@ -106,5 +102,9 @@ Example C12_example_memfd :
 Proof. vm_compute. repeat split. Qed.
 Example C12_example_stalled :
   let w := run wit_memfd stalled_peer_witness (init wit_memfd) in
-  cret (wc w) = Some (RErr ETimeout) /\ cdup (wc w) = true /\ c_thread_alive w = true /\ c_mapped w = [].
+  cret (wc w) = Some (RErr ETimeout) /\ cdup (wc w) = false /\ c_thread_alive w = false /\ c_mapped w = [].
 Proof. exact stalled_peer_state. Qed.
+Example C12_example_late_peer :
+  let w := run wit_file late_peer_witness (init wit_file) in
+  sret (ws w) = Some (RErr ETimeout) /\ s_mapped w = [] /\ sdup (ws w) = false /\ s_thread_alive w = false.
+Proof. exact late_peer_state. Qed.
